@@ -696,6 +696,10 @@ func (w *chanWorld) parse() {
 				}
 			}
 			w.fail("C10", "modified/"+op.spec.Kind, fmt.Sprintf("the bytes transmitted for %s.%d (%s, %d bytes) %s", op.w, op.idx, op.spec.Kind, len(ck.data), how))
+			if isMsgKind(op.spec.Kind) || op.spec.Kind == "RF" {
+				// an accepted carrier (reader, WriterTo, vector, buffer, ...) is sent byte-exact
+				w.fail("C14", "carrier-bytes/"+op.spec.Kind, fmt.Sprintf("the bytes transmitted for the %s message %s.%d (%d bytes) %s", op.spec.Kind, op.w, op.idx, len(ck.data), how))
+			}
 		}
 		if ck.inPos >= 0 {
 			w.fail("C01", "duplicate", fmt.Sprintf("payload %s.%d transmitted twice", op.w, op.idx))
